@@ -17,8 +17,9 @@
 //!     read the engine-written bytes and must see the saved picture;
 //!   * re-save stability: `from_bytes -> to_bytes -> from_bytes` equals the first load, on engine-written files and on mutated
 //!     engine-written files the loader still accepts.
+use crate::doc::{join, parse_ints, CellSpec, LayerSpec};
 use crate::util::*;
-use icy_engine::{AttributedChar, BitFont, Buffer, Color, IceMode, Palette, SaveOptions, TextAttribute, TextPane};
+use icy_engine::{AttributedChar, BitFont, Buffer, Color, IceMode, Palette, SauceData, SauceString, SaveOptions, TextAttribute, TextPane, SAUCE_FONT_NAMES};
 use std::collections::{BTreeMap, BTreeSet};
 use std::path::Path;
 
@@ -72,6 +73,19 @@ pub struct Cell {
 pub enum FontSpec {
     Default,
     Gen(u8, u32), // height, seed
+    Sauce(usize), // index into SAUCE_FONT_NAMES
+}
+
+/// the buffer's own SAUCE data as `write_sauce_info` writes it: the three text fields padded to their length, the comment
+/// lines padded to 64 bytes, the two display flags
+#[derive(Clone, Debug, PartialEq, Eq, Hash)]
+pub struct Meta {
+    title: Vec<u8>,
+    author: Vec<u8>,
+    group: Vec<u8>,
+    comments: Vec<Vec<u8>>,
+    ar: bool,
+    ls: bool,
 }
 
 pub type Rgb = (u8, u8, u8);
@@ -85,6 +99,7 @@ pub struct Case {
     pal: Option<Vec<Rgb>>, // None = the DOS default palette
     fonts: Vec<(usize, FontSpec)>,
     cells: Vec<Cell>,
+    meta: Option<Meta>,
 }
 
 const BOLD: u16 = 1;
@@ -120,6 +135,7 @@ fn fonts_str(f: &[(usize, FontSpec)]) -> String {
         .map(|(s, f)| match f {
             FontSpec::Default => format!("{}.d", s),
             FontSpec::Gen(h, seed) => format!("{}.g{}.{}", s, h, seed),
+            FontSpec::Sauce(i) => format!("{}.s{}", s, i),
         })
         .collect::<Vec<_>>()
         .join(",")
@@ -144,21 +160,43 @@ pub fn token(c: &Case) -> String {
         }
     }
     let head = format!("{}:{}:{}:{}:{}:{}", c.fmt.ext(), c.ice, c.w, c.opts, pal_str(&c.pal), fonts_str(&c.fonts));
+    let tail = match &c.meta {
+        None => String::new(),
+        Some(m) => format!(
+            ":{}/{}/{}/{}/{}{}",
+            hex(&m.title),
+            hex(&m.author),
+            hex(&m.group),
+            if m.comments.is_empty() { "-".to_string() } else { m.comments.iter().map(|c| hex(c)).collect::<Vec<_>>().join(",") },
+            m.ar as u8,
+            m.ls as u8
+        ),
+    };
     if small {
         let a: Vec<String> = alpha.iter().map(cell_str).collect();
         let s: String = idx.iter().map(|i| B36[*i] as char).collect();
-        format!("{}:{}:{}", head, a.join(","), s)
+        format!("{}:{}:{}{}", head, a.join(","), s, tail)
     } else {
         let a: Vec<String> = c.cells.iter().map(cell_str).collect();
-        format!("{}:{}:*", head, a.join(","))
+        format!("{}:{}:*{}", head, a.join(","), tail)
     }
+}
+
+fn parse_meta(s: &str) -> Option<Meta> {
+    let p: Vec<&str> = s.split('/').collect();
+    if p.len() != 5 || p[4].len() != 2 {
+        return None;
+    }
+    let comments = if p[3] == "-" { Vec::new() } else { p[3].split(',').map(unhex).collect() };
+    Some(Meta { title: unhex(p[0]), author: unhex(p[1]), group: unhex(p[2]), comments, ar: &p[4][0..1] == "1", ls: &p[4][1..2] == "1" })
 }
 
 pub fn parse_token(t: &str) -> Option<Case> {
     let p: Vec<&str> = t.trim().split(':').collect();
-    if p.len() != 8 {
+    if p.len() != 8 && p.len() != 9 {
         return None;
     }
+    let meta = if p.len() == 9 { Some(parse_meta(p[8])?) } else { None };
     let fmt = Fmt::parse(p[0])?;
     let ice: u8 = p[1].parse().ok()?;
     let w: usize = p[2].parse().ok()?;
@@ -180,6 +218,12 @@ pub fn parse_token(t: &str) -> Option<Case> {
             let slot: usize = q.first()?.parse().ok()?;
             if q.len() == 2 && q[1] == "d" {
                 fonts.push((slot, FontSpec::Default));
+            } else if q.len() == 2 && q[1].starts_with('s') {
+                let i: usize = q[1][1..].parse().ok()?;
+                if i >= SAUCE_FONT_NAMES.len() {
+                    return None;
+                }
+                fonts.push((slot, FontSpec::Sauce(i)));
             } else if q.len() == 3 && q[1].starts_with('g') {
                 fonts.push((slot, FontSpec::Gen(q[1][1..].parse().ok()?, q[2].parse().ok()?)));
             } else {
@@ -208,7 +252,7 @@ pub fn parse_token(t: &str) -> Option<Case> {
     if w == 0 || cells.is_empty() || cells.len() % w != 0 || ice > 2 {
         return None;
     }
-    Some(Case { fmt, ice, w, opts, pal, fonts, cells })
+    Some(Case { fmt, ice, w, opts, pal, fonts, cells, meta })
 }
 
 // ------------------------------------------------------------------ building the buffer
@@ -243,7 +287,59 @@ fn make_font(f: &FontSpec) -> BitFont {
     match f {
         FontSpec::Default => BitFont::default(),
         FontSpec::Gen(h, seed) => BitFont::create_8(gen_font_name(*h, *seed), 8, *h, &gen_font_data(*h, *seed)),
+        FontSpec::Sauce(i) => BitFont::from_sauce_name(SAUCE_FONT_NAMES[*i]).unwrap(),
     }
+}
+
+/// a `SauceString` holding what `read` makes of a padded field
+fn sauce_str<const LEN: usize, const EMPTY: u8>(bytes: &[u8]) -> SauceString<LEN, EMPTY> {
+    let mut d = bytes.to_vec();
+    d.resize(LEN, EMPTY);
+    let mut s = SauceString::<LEN, EMPTY>::new();
+    s.read(&d);
+    s
+}
+
+/// the bytes `append_to` writes for a `SauceString`
+fn sauce_bytes<const LEN: usize, const EMPTY: u8>(s: &SauceString<LEN, EMPTY>) -> Vec<u8> {
+    let mut v = Vec::new();
+    s.append_to(&mut v);
+    v
+}
+
+fn make_sauce(m: &Meta) -> SauceData {
+    let mut d = SauceData::default();
+    d.title = sauce_str(&m.title);
+    d.author = sauce_str(&m.author);
+    d.group = sauce_str(&m.group);
+    d.comments = m.comments.iter().map(|c| sauce_str(c)).collect();
+    d.use_aspect_ratio = m.ar;
+    d.use_letter_spacing = m.ls;
+    d
+}
+
+fn meta_of(d: &SauceData) -> Meta {
+    Meta {
+        title: sauce_bytes(&d.title),
+        author: sauce_bytes(&d.author),
+        group: sauce_bytes(&d.group),
+        comments: d.comments.iter().map(sauce_bytes).collect(),
+        ar: d.use_aspect_ratio,
+        ls: d.use_letter_spacing,
+    }
+}
+
+/// a font name as SAUCE bytes (`SauceString::from`: CP437, `?` for anything else), without a length cut
+fn name_bytes(name: &str) -> Vec<u8> {
+    let mut out = Vec::new();
+    let chars: Vec<char> = name.chars().collect();
+    for ch in chars.chunks(60) {
+        let s: SauceString<64, 0> = SauceString::from(ch.iter().collect::<String>());
+        let mut v = sauce_bytes(&s);
+        v.truncate(ch.len());
+        out.extend(v);
+    }
+    out
 }
 
 fn dos_palette() -> Vec<Rgb> {
@@ -271,6 +367,9 @@ fn build(case: &Case) -> Buffer {
         let ch = char::from_u32(c.ch).unwrap_or('?');
         buf.layers[0].set_char(((i % case.w) as i32, (i / case.w) as i32), AttributedChar::new(ch, a));
     }
+    if let Some(m) = &case.meta {
+        buf.set_sauce(Some(make_sauce(m)), false);
+    }
     buf
 }
 
@@ -288,19 +387,23 @@ pub struct Pic {
     big: bool,
     pal: Vec<Rgb>,
     fonts: BTreeMap<usize, (i32, Vec<u8>)>, // slot -> (height, glyph bytes of codes 0..length)
+    names: BTreeMap<usize, Vec<u8>>,        // slot -> font name as SAUCE bytes
+    meta: Option<Meta>,                     // the SAUCE data the buffer keeps
 }
 
 const MAX_AREA: i64 = 60_000;
+const MAX_ROWS: i32 = 4000;
 
 fn get_cell(b: &Buffer, x: i32, y: i32) -> Cell {
     let c = b.get_char((x, y));
     Cell { ch: c.ch as u32, fg: c.attribute.get_foreground(), bg: c.attribute.get_background(), flags: c.attribute.attr, page: c.get_font_page() }
 }
 
-fn observe(b: &Buffer) -> Pic {
+pub(crate) fn observe(b: &Buffer) -> Pic {
     let (w, h) = (b.get_width(), b.get_height());
     let area = w as i64 * h as i64;
-    let big = w < 0 || h < 0 || area > MAX_AREA;
+    // (tall pictures too: the model's row access is linear in the row number)
+    let big = w < 0 || h < 0 || area > MAX_AREA || h > MAX_ROWS;
     let mut cells = Vec::new();
     if !big {
         cells.reserve(area as usize);
@@ -312,10 +415,13 @@ fn observe(b: &Buffer) -> Pic {
     }
     let pal = (0..b.palette.len() as u32).map(|i| b.palette.get_rgb(i)).collect();
     let mut fonts = BTreeMap::new();
+    let mut names = BTreeMap::new();
     for (slot, f) in b.font_iter() {
         fonts.insert(*slot, (f.size.height, f.convert_to_u8_data()));
+        names.insert(*slot, name_bytes(&f.name));
     }
-    Pic { w, h, lw: b.layers[0].get_width(), lh: b.layers[0].get_height(), lc: b.get_line_count(), ice: ice_num(b.ice_mode), cells, big, pal, fonts }
+    let meta = b.get_sauce().as_ref().map(meta_of);
+    Pic { w, h, lw: b.layers[0].get_width(), lh: b.layers[0].get_height(), lc: b.get_line_count(), ice: ice_num(b.ice_mode), cells, big, pal, fonts, names, meta }
 }
 
 fn cells_hash(cells: &[Cell]) -> u64 {
@@ -329,11 +435,31 @@ fn cells_hash(cells: &[Cell]) -> u64 {
 }
 
 /// the line the model must reproduce for a loaded buffer
-fn digest(p: &Pic) -> String {
+pub(crate) fn digest(p: &Pic) -> String {
     let pal = fnv(p.pal.iter().flat_map(|(r, g, b)| [*r as u64, *g as u64, *b as u64]));
-    let fonts: Vec<String> = p.fonts.iter().map(|(s, (h, d))| format!("{}.{}.{}", s, h, fnv(d.iter().map(|b| *b as u64)))).collect();
+    let fonts: Vec<String> = p
+        .fonts
+        .iter()
+        .map(|(s, (h, d))| format!("{}.{}.{}.{}", s, h, fnv(d.iter().map(|b| *b as u64)), fnv(p.names[s].iter().map(|b| *b as u64))))
+        .collect();
+    let sauce = match &p.meta {
+        None => "-".to_string(),
+        Some(m) => {
+            let mut v: Vec<u64> = Vec::new();
+            v.extend(m.title.iter().map(|b| *b as u64));
+            v.extend(m.author.iter().map(|b| *b as u64));
+            v.extend(m.group.iter().map(|b| *b as u64));
+            v.push(m.comments.len() as u64);
+            for c in &m.comments {
+                v.extend(c.iter().map(|b| *b as u64));
+            }
+            v.push(m.ar as u64);
+            v.push(m.ls as u64);
+            fnv(v).to_string()
+        }
+    };
     format!(
-        "ok {} {} {} {} {} {} {} {} {} {}",
+        "ok {} {} {} {} {} {} {} {} {} {} {}",
         p.w,
         p.h,
         p.lw,
@@ -343,7 +469,8 @@ fn digest(p: &Pic) -> String {
         if p.big { "big".to_string() } else { cells_hash(&p.cells).to_string() },
         p.pal.len(),
         pal,
-        if fonts.is_empty() { "-".to_string() } else { fonts.join(",") }
+        if fonts.is_empty() { "-".to_string() } else { fonts.join(",") },
+        sauce
     )
 }
 
@@ -489,7 +616,7 @@ fn six_bit(v: u8) -> bool {
 
 fn font_ok(f: &FontSpec) -> bool {
     match f {
-        FontSpec::Default => true,
+        FontSpec::Default | FontSpec::Sauce(_) => true,
         FontSpec::Gen(h, _) => (1..=32).contains(h),
     }
 }
@@ -498,6 +625,7 @@ fn font_height(f: &FontSpec) -> u8 {
     match f {
         FontSpec::Default => 16,
         FontSpec::Gen(h, _) => *h,
+        FontSpec::Sauce(i) => BitFont::from_sauce_name(SAUCE_FONT_NAMES[*i]).unwrap().size.height as u8,
     }
 }
 
@@ -515,7 +643,9 @@ pub fn representable(c: &Case, cells: &[Cell]) -> bool {
         None => true,
         Some(p) => *p == dos_palette(),
     };
-    let common = c.cells.iter().all(|x| x.ch <= 255 && x.flags & INVISIBLE == 0);
+    // (cells are what Buffer::get_char answers: an invisible one lies outside every layer; the attribute-byte formats write it
+    // like any other cell, Tundra skips it)
+    let common = c.cells.iter().all(|x| x.ch <= 255 && (c.fmt != Fmt::Tnd || x.flags & INVISIBLE == 0)) && c.meta.as_ref().map(|m| m.comments.len() <= 255).unwrap_or(true);
     // attribute byte formats: 16 colours, bit 7 = blink or bright background
     let attr_ok = |ice: u8| {
         c.cells.iter().all(|x| x.fg < 16 && if ice == 2 { x.bg < 16 && x.flags & BLINK == 0 } else { x.bg < 8 })
@@ -574,13 +704,43 @@ struct Spec {
     ice: Option<bool>,
 }
 
-/// strip `EOF + SAUCE00 record` (no comment block: the harness never sets comments)
+/// strip `EOF [+ COMNT block] + SAUCE00 record` (sauce.txt: the comment block, if the record counts any lines, sits right
+/// in front of the record, the EOF character in front of that)
 fn strip_sauce(d: &[u8]) -> (&[u8], Option<&[u8]>) {
-    if d.len() >= 129 && &d[d.len() - 128..d.len() - 121] == b"SAUCE00" && d[d.len() - 129] == 0x1A {
-        (&d[..d.len() - 129], Some(&d[d.len() - 128..]))
-    } else {
-        (d, None)
+    if d.len() >= 129 && &d[d.len() - 128..d.len() - 121] == b"SAUCE00" {
+        let n = d[d.len() - 128 + 104] as usize;
+        let extra = if n > 0 { 5 + 64 * n } else { 0 };
+        if d.len() >= 129 + extra && d[d.len() - 129 - extra] == 0x1A && (n == 0 || &d[d.len() - 128 - extra..d.len() - 123 - extra] == b"COMNT") {
+            return (&d[..d.len() - 129 - extra], Some(&d[d.len() - 128..]));
+        }
     }
+    (d, None)
+}
+
+fn strip_pad(v: &[u8]) -> &[u8] {
+    let mut n = v.len();
+    while n > 0 && (v[n - 1] == 0 || v[n - 1] == b' ') {
+        n -= 1;
+    }
+    &v[..n]
+}
+
+/// title / author / group / comments as `SauceString`'s own equality compares them (trailing blanks and NULs never count)
+fn meta_same(a: &Meta, b: &Meta) -> bool {
+    strip_pad(&a.title) == strip_pad(&b.title)
+        && strip_pad(&a.author) == strip_pad(&b.author)
+        && strip_pad(&a.group) == strip_pad(&b.group)
+        && a.comments.len() == b.comments.len()
+        && a.comments.iter().zip(b.comments.iter()).all(|(x, y)| strip_pad(x) == strip_pad(y))
+}
+
+fn default_meta() -> Meta {
+    meta_of(&SauceData::default())
+}
+
+/// `SauceData::extract` finds a record at the end of the file
+fn tail_reads_as_sauce(b: &[u8]) -> bool {
+    matches!(catch(std::panic::AssertUnwindSafe(|| SauceData::extract(b))), Ok(Ok(Some(_))))
 }
 
 fn attr_cell(ch: u8, attr: u8, ice: bool) -> (u8, u8, u8, bool, u8) {
@@ -845,7 +1005,168 @@ fn key(fmt: Fmt, suffix: &str) -> String {
 }
 
 pub fn eval(case: &Case) -> Outcome {
-    let buf = build(case);
+    eval_buf(case, build(case))
+}
+
+/// a buffer with a stack of layers: the frame of `base` (format, mode, width, options, palette, fonts, SAUCE data; its cells
+/// are not used), `h` rows, the layers bottom first
+#[derive(Clone, Debug)]
+pub struct LCase {
+    base: Case,
+    h: usize,
+    layers: Vec<LayerSpec>,
+}
+
+fn ltoken(c: &LCase) -> String {
+    let b = &c.base;
+    let meta = match &b.meta {
+        None => "-".to_string(),
+        Some(_) => {
+            let t = token(&Case { cells: vec![Cell { ch: 32, fg: 7, bg: 0, flags: 0, page: 0 }; b.w], ..b.clone() });
+            t.rsplit(':').next().unwrap().to_string()
+        }
+    };
+    let mut ints: Vec<i64> = vec![c.layers.len() as i64];
+    for l in &c.layers {
+        l.encode(&mut ints);
+    }
+    format!("layers:{}:{}:{}:{}:{}:{}:{}:{}:{}", b.fmt.ext(), b.ice, b.w, c.h, b.opts, pal_str(&b.pal), fonts_str(&b.fonts), meta, join(&ints, ","))
+}
+
+fn parse_ltoken(t: &str) -> Option<LCase> {
+    let p: Vec<&str> = t.trim().split(':').collect();
+    if p.len() != 10 || p[0] != "layers" {
+        return None;
+    }
+    let w: usize = p[3].parse().ok()?;
+    let h: usize = p[4].parse().ok()?;
+    if w == 0 || h == 0 {
+        return None;
+    }
+    let filler = "32.7.0.0.0";
+    let syms: String = std::iter::repeat('0').take(w).collect();
+    let mut base_tok = format!("{}:{}:{}:{}:{}:{}:{}:{}", p[1], p[2], p[3], p[5], p[6], p[7], filler, syms);
+    if p[8] != "-" {
+        base_tok.push(':');
+        base_tok.push_str(p[8]);
+    }
+    let base = parse_token(&base_tok)?;
+    let ints = parse_ints(p[9])?;
+    let mut it = ints.into_iter();
+    let n = it.next()?;
+    let mut layers = Vec::new();
+    for _ in 0..n {
+        layers.push(LayerSpec::decode(&mut it)?);
+    }
+    Some(LCase { base, h, layers })
+}
+
+fn build_layered(c: &LCase) -> Buffer {
+    let frame = Case { cells: vec![Cell { ch: 32, fg: 7, bg: 0, flags: 0, page: 0 }; c.base.w * c.h], ..c.base.clone() };
+    let mut buf = build(&frame);
+    buf.layers.clear();
+    for l in &c.layers {
+        buf.layers.push(l.build());
+    }
+    buf
+}
+
+/// correspondence (`binlayers save` / `binlayers rt`) and oracle for a buffer with a layer stack: the reference picture is
+/// `Buffer::get_char` over the buffer, exactly what the property compares the loaded file with
+fn one_layered(run: &mut Run, c: &LCase) {
+    let buf = build_layered(c);
+    let frame = Case { cells: vec![Cell { ch: 32, fg: 7, bg: 0, flags: 0, page: 0 }; c.base.w * c.h], ..c.base.clone() };
+    let out = eval_buf(&frame, buf);
+    let tok = ltoken(c);
+    let date = match &out.bytes {
+        Ok(b) => sauce_date(b),
+        Err(_) => "19700101".to_string(),
+    };
+    run.case(&format!("binlayers save {} {}", tok, date), &show_bytes(&out.bytes, true));
+    let verdict = format!(
+        "rep={} save={} load={} same={}",
+        out.rep as u8,
+        match &out.bytes {
+            Ok(_) => "ok",
+            Err(e) => canon(e),
+        },
+        match &out.loaded {
+            Some(Ok(_)) => "ok",
+            Some(Err(_)) => "rej",
+            None => "-",
+        },
+        out.same as u8
+    );
+    run.case(&format!("binlayers rt {} {}", tok, date), &verdict);
+    run.nontrivial(fnv(tok.bytes().map(|b| b as u64)));
+    run.count(&format!("layers:{}:{}", c.base.fmt.ext(), if out.rep { "representable" } else { "not-representable" }));
+    run.count(&format!("layers:n={}", c.layers.len()));
+    if c.layers.iter().any(|l| l.alpha) {
+        run.count("layers:alpha");
+    }
+    if c.layers.iter().any(|l| l.ox != 0 || l.oy != 0) {
+        run.count("layers:offset");
+    }
+    if c.layers.iter().any(|l| l.mode != 0) {
+        run.count("layers:chars/attributes-mode");
+    }
+    for (k, what) in &out.failures {
+        run.oracle_fail(k, &tok, what);
+    }
+}
+
+/// 1..=3 layers: a base layer of about the buffer size, upper layers smaller, shifted (also partly outside the buffer), with an
+/// alpha channel (holes of invisible cells), now and then hidden, of `Chars` / `Attributes` mode, or without alpha channel
+fn random_layered(rng: &mut Rng, fmt: Fmt) -> LCase {
+    let mut base = random_case(rng, fmt, 400);
+    let w = base.w;
+    let h = (base.cells.len() / w).max(1);
+    let pages: Vec<usize> = {
+        let mut v: Vec<usize> = base.cells.iter().map(|c| c.page).collect();
+        v.sort_unstable();
+        v.dedup();
+        v
+    };
+    let ice = base.ice;
+    let npal = base.pal.as_ref().map(|p| p.len()).unwrap_or(16) as u64;
+    let mut cell = |rng: &mut Rng| -> CellSpec {
+        let v = rng.next();
+        let fg = ((v >> 8) % if fmt == Fmt::Tnd { npal.max(1) } else { 16 }) as u32;
+        let bg = ((v >> 16) % if fmt == Fmt::Tnd { npal.max(1) } else if ice == 2 { 16 } else { 8 }) as u32;
+        let mut flags = 0u16;
+        if (v >> 24) & 7 == 0 && pages.len() < 2 {
+            flags |= BOLD;
+        }
+        CellSpec { ch: if rng.chance(1, 8) { rng.below(7) as u32 } else { (v & 0xFF) as u32 }, fg: if pages.len() == 2 { fg & 7 } else { fg }, bg, flags, page: *rng.pick(&pages) }
+    };
+    let n = rng.range(1, 3) as usize;
+    let mut layers = Vec::new();
+    for i in 0..n {
+        let (lw, lh, ox, oy) = if i == 0 && rng.chance(3, 4) {
+            (w as i32, h as i32, 0, 0)
+        } else {
+            (rng.range(1, w as i64 + 2) as i32, rng.range(1, h as i64 + 2) as i32, rng.range(-2, w as i64) as i32, rng.range(-2, h as i64) as i32)
+        };
+        let alpha = i > 0 && rng.chance(3, 4);
+        let hole = if alpha { rng.range(10, 60) as u64 } else if rng.chance(1, 4) { 10 } else { 0 };
+        let rows: Vec<Vec<Option<CellSpec>>> = (0..lh).map(|_| (0..lw).map(|_| if rng.below(100) < hole { None } else { Some(cell(rng)) }).collect()).collect();
+        layers.push(LayerSpec {
+            visible: !rng.chance(1, 10),
+            alpha,
+            mode: if i > 0 && rng.chance(1, 6) { 1 + rng.below(2) as u8 } else { 0 },
+            ox,
+            oy,
+            w: lw,
+            h: lh,
+            dflt: 0,
+            rows,
+        });
+    }
+    base.cells.truncate(w);
+    LCase { base, h, layers }
+}
+
+fn eval_buf(case: &Case, buf: Buffer) -> Outcome {
     let src = observe(&buf);
     let rep = representable(case, &src.cells);
     let bytes = save(&buf, case.fmt, case.opts);
@@ -860,15 +1181,31 @@ pub fn eval(case: &Case) -> Outcome {
                     let dst = observe(lb);
                     let diffs = compare(case.fmt, &src, &dst, true);
                     same = diffs.is_empty();
-                    if rep && !same && case.opts & 1 == 0 && b.len() >= 128 && &b[b.len() - 128..b.len() - 123] == b"SAUCE" {
-                        // a file written WITHOUT a SAUCE record whose last 128 bytes (picture content) spell one
-                        failures.push((key(case.fmt, "content-reads-as-sauce"), format!("the last 128 bytes of the file are picture data that begin with SAUCE; from_bytes takes them for a SAUCE record and cuts them off ({}x{} loads as {}x{})", src.w, src.h, dst.w, dst.h)));
+                    if rep && !same && case.opts & 1 == 0 && tail_reads_as_sauce(b) {
+                        // a file written WITHOUT a SAUCE record whose tail (picture content) SauceData::extract takes for one
+                        failures.push((key(case.fmt, "content-reads-as-sauce"), format!("the last 128 bytes of the file are picture data that read as a SAUCE record; from_bytes cuts them off ({}x{} loads as {}x{})", src.w, src.h, dst.w, dst.h)));
                     } else if rep && case.fmt == Fmt::Tnd && case.w > 1000 && dst.w == 80 {
                         // Buffer::set_sauce distrusts SAUCE widths above 1000 (one finding, not a width + height + cells cascade)
                         failures.push((key(case.fmt, "sauce-width>1000"), format!("a Tundra picture {} columns wide loads {} columns wide: set_sauce replaces a SAUCE width above 1000 by 80", src.w, dst.w)));
                     } else if rep {
                         for (k, t) in diffs {
                             failures.push((key(case.fmt, &k), t));
+                        }
+                    }
+                    if rep && case.opts & 1 != 0 {
+                        // SAUCE-carrying save: title, author, group and the comment lines come back with the buffer
+                        let want = case.meta.clone().unwrap_or_else(default_meta);
+                        match &dst.meta {
+                            Some(got) if meta_same(&want, got) => {}
+                            got => failures.push((key(case.fmt, "sauce-meta"), format!("SAUCE data {:?} came back as {:?}", want, got))),
+                        }
+                        // BIN has no font block: a font that SAUCE can name (TInfoS) comes back by that name
+                        if case.fmt == Fmt::Bin {
+                            if let Some((_, FontSpec::Default | FontSpec::Sauce(_))) = case.fonts.iter().rev().find(|(s, _)| *s == 0) {
+                                if src.fonts.get(&0) != dst.fonts.get(&0) {
+                                    failures.push((key(case.fmt, "font-by-name"), format!("font 0 ({:?}) is not the font the loaded buffer has in slot 0", buf.get_font(0).map(|f| f.name.clone()))));
+                                }
+                            }
                         }
                     }
                     loaded = Some(Ok(dst));
@@ -919,25 +1256,57 @@ fn resave(fmt: Fmt, opts: u8, bytes: &[u8]) -> (String, String, Vec<(String, Str
         Err(e) => {
             if e.starts_with("panic") {
                 failures.push((key(fmt, "resave-panic"), format!("saving a loaded file panics: {}", e)));
+            } else if !refusal_expected(fmt, &p1, opts) {
+                failures.push((key(fmt, "resave-refused"), format!("a loaded file ({}x{}) cannot be saved again: {}", p1.w, p1.h, e)));
             }
             return (format!("save-{}", canon(&e)), "19700101".into(), failures);
         }
     };
     let date = sauce_date(&second);
+    let head = format!("{} {}", second.len(), fnv(second.iter().map(|b| *b as u64)));
     match load(fmt, &second) {
         Ok(b2) => {
             let p2 = observe(&b2);
-            let diffs = compare(fmt, &p1, &p2, false);
-            let line = format!("{} same={}", digest(&p2), if diffs.is_empty() { 1 } else { 0 });
+            let mut diffs = compare(fmt, &p1, &p2, false);
+            // formats without a height field: a picture WITHOUT ROWS comes back as the 25 default rows (one finding per format)
+            if p1.h == 0 && p2.h != 0 && !diffs.is_empty() {
+                diffs = vec![("height0".into(), format!("a loaded picture without rows ({}x0) is {}x{} after save and load", p1.w, p2.w, p2.h))];
+            } else if opts & 1 == 0 && tail_reads_as_sauce(&second) && !diffs.is_empty() {
+                diffs = vec![("content-reads-as-sauce".into(), "the re-saved file (written without a SAUCE record) ends in picture data that reads as one".into())];
+            } else if fmt == Fmt::Bin && opts & 1 == 0 && p1.w != 160 {
+                diffs.clear(); // BIN stores its width in the SAUCE record only (the quantifier: "with SAUCE")
+            } else if fmt == Fmt::Tnd && opts & 1 == 0 && p1.w != 80 {
+                diffs.clear(); // the same for Tundra
+            }
+            let line = format!("{} {} same={}", head, digest(&p2), if compare(fmt, &p1, &p2, false).is_empty() { 1 } else { 0 });
             for (k, t) in diffs {
                 failures.push((key(fmt, &format!("resave-{}", k)), t));
+            }
+            if opts & 1 != 0 {
+                // the SAUCE data of the first load survives the re-save
+                match (&p1.meta, &p2.meta) {
+                    (Some(a), Some(b)) if meta_same(a, b) => {}
+                    (None, Some(b)) if meta_same(&default_meta(), b) => {}
+                    (a, b) => failures.push((key(fmt, "resave-sauce-meta"), format!("SAUCE data {:?} became {:?}", a, b))),
+                }
             }
             (line, date, failures)
         }
         Err(e) => {
             failures.push((key(fmt, "resave-rejected"), format!("the re-saved file does not load: {}", e)));
-            ("rej2".into(), date, failures)
+            (format!("{} rej2", head), date, failures)
         }
+    }
+}
+
+/// loaded pictures the format's writer cannot hold by its own rules: iCE Draw more than 200 rows; BIN an odd width or more than
+/// 510 columns (the SAUCE record stores width / 2 in a byte) — and iCE Draw with a SAUCE record above 510 columns too: its writer
+/// appends the BIN kind of record (a header that announces such a width is outside the format, which is 80 columns wide)
+fn refusal_expected(fmt: Fmt, p: &Pic, opts: u8) -> bool {
+    match fmt {
+        Fmt::Idf => p.h > 200 || (opts & 1 != 0 && p.w > 510),
+        Fmt::Bin => p.w % 2 != 0 || p.w > 510,
+        _ => false,
     }
 }
 
@@ -1001,7 +1370,9 @@ fn one_file(run: &mut Run, fmt: Fmt, opts: u8, bytes: &[u8], mutated: bool) {
     };
     run.case(&format!("binformats load {} {}", fmt.ext(), hex(bytes)), &line);
     run.count(&format!("{}:{}", fmt.ext(), if l.is_ok() { if mutated { "mutated-accepted" } else { "file-accepted" } } else { "mutated-rejected" }));
-    if l.is_ok() {
+    if let Ok(b) = &l {
+        // very wide XBin rows are re-saved raw: the model of compress_backtrack (C06) is quadratic in the row width
+        let opts = if fmt == Fmt::Xb && b.get_width() > 600 { opts & !2 } else { opts };
         let (line, date, failures) = resave(fmt, opts, bytes);
         run.case(&format!("binformats resave {} {} {} {}", fmt.ext(), opts, date, hex(bytes)), &line);
         for (k, t) in failures {
@@ -1304,6 +1675,8 @@ fn random_fonts(rng: &mut Rng, fmt: Fmt, pages: &[usize]) -> Vec<(usize, FontSpe
     let hh = if h16 || rng.chance(1, 2) { 16 } else { *rng.pick(&[1u8, 8, 14, 16, 19, 32, 32, 33]) };
     for (i, p) in pages.iter().enumerate() {
         let f = if rng.chance(1, 2) && (i == 0 || hh == 16) { FontSpec::Default } else { FontSpec::Gen(if rng.chance(1, 12) { *rng.pick(&[8u8, 14, 16, 20]) } else { hh }, rng.below(50) as u32) };
+        // a font SAUCE can name (BIN has no other way to carry a font; the others embed its glyphs)
+        let f = if i == 0 && rng.chance(if fmt == Fmt::Bin { 1 } else { 1 }, if fmt == Fmt::Bin { 2 } else { 8 }) { FontSpec::Sauce(rng.below(SAUCE_FONT_NAMES.len() as u64) as usize) } else { f };
         v.push((*p, f));
     }
     if !pages.contains(&0) && rng.chance(3, 4) {
@@ -1461,12 +1834,346 @@ fn random_case(rng: &mut Rng, fmt: Fmt, max_cells: usize) -> Case {
         let n = cells.len();
         cells[n - 1].page = pages[1];
     }
-    Case { fmt, ice, w, opts, pal, fonts, cells }
+    let meta = if rng.chance(1, 3) { Some(random_meta(rng)) } else { None };
+    Case { fmt, ice, w, opts, pal, fonts, cells, meta }
+}
+
+/// SAUCE data as a buffer can hold it (what `SauceString::read` makes of random field contents): texts of every length up to
+/// the field, trailing blanks and NULs, bytes above 127, comment lines with and without a NUL inside, the two display flags
+fn random_meta(rng: &mut Rng) -> Meta {
+    let mut text = |rng: &mut Rng, max: usize| -> Vec<u8> {
+        let n = match rng.below(6) {
+            0 => 0,
+            1 => max,
+            _ => rng.below(max as u64 + 1) as usize,
+        };
+        let mut v: Vec<u8> = (0..n)
+            .map(|_| match rng.below(12) {
+                0 => b' ',
+                1 => *rng.pick(&[0u8, 0x1A, 0xFF, 0x80, b'S']),
+                _ => 0x21 + rng.below(0x5E) as u8,
+            })
+            .collect();
+        if rng.chance(1, 4) && !v.is_empty() {
+            let k = v.len() - 1;
+            v[k] = b' ';
+        }
+        v
+    };
+    let n_comments = match rng.below(6) {
+        0..=2 => 0,
+        3 => 1,
+        4 => 2,
+        _ => rng.range(3, 6) as usize,
+    };
+    let raw = Meta {
+        title: text(rng, 35),
+        author: text(rng, 20),
+        group: text(rng, 20),
+        comments: (0..n_comments).map(|_| text(rng, 64)).collect(),
+        ar: rng.chance(1, 3),
+        ls: rng.chance(1, 3),
+    };
+    meta_of(&make_sauce(&raw))
+}
+
+/// a SAUCE trailer as foreign software may have written it: any data / file type, sizes, flags, a font name, comment lines
+fn foreign_sauce(rng: &mut Rng, fmt: Fmt, w_hint: usize) -> Vec<u8> {
+    let mut v = vec![0x1A];
+    let n_comments = match rng.below(5) {
+        0 => rng.range(1, 3) as usize,
+        _ => 0,
+    };
+    if n_comments > 0 {
+        v.extend(b"COMNT");
+        for _ in 0..n_comments {
+            let mut line: Vec<u8> = (0..rng.below(65) as usize).map(|_| 0x20 + rng.below(0x5F) as u8).collect();
+            line.resize(64, if rng.chance(1, 2) { 0 } else { b' ' });
+            v.extend(line);
+        }
+    }
+    v.extend(b"SAUCE00");
+    let text = |rng: &mut Rng, n: usize| -> Vec<u8> {
+        let k = rng.below(n as u64 + 1) as usize;
+        let mut t: Vec<u8> = (0..k).map(|_| 0x21 + rng.below(0x5E) as u8).collect();
+        t.resize(n, b' ');
+        t
+    };
+    v.extend(text(rng, 35));
+    v.extend(text(rng, 20));
+    v.extend(text(rng, 20));
+    v.extend(b"20240229");
+    v.extend([0, 0, 0, 0]);
+    // the record type the format's own writer uses most of the time, any other now and then
+    let (dt, ft): (u8, u8) = if rng.chance(2, 3) {
+        match fmt {
+            Fmt::Xb => (6, 0),
+            Fmt::Bin | Fmt::Idf => (5, (w_hint / 2).min(255) as u8),
+            Fmt::Adf => (1, 1),
+            Fmt::Tnd => (1, 8),
+        }
+    } else {
+        *rng.pick(&[(1u8, 0u8), (1, 1), (1, 2), (1, 4), (1, 5), (1, 8), (5, 0), (5, 1), (5, 40), (5, 80), (5, 255), (6, 0), (0, 0), (2, 3), (9, 9)])
+    };
+    let t1: u16 = match rng.below(8) {
+        0 => 0,
+        // (Tundra takes any width from the record and allocates full-width rows: no 65535-column records there)
+        1 if fmt == Fmt::Tnd => *rng.pick(&[1u16, 2, 79, 80, 81, 160, 999, 1000, 1001, 4096]),
+        1 => *rng.pick(&[1u16, 2, 79, 80, 81, 160, 999, 1000, 1001, 4096, 65535]),
+        2 => rng.range(1, 200) as u16,
+        _ => w_hint as u16,
+    };
+    let t2: u16 = match rng.below(6) {
+        0 => 0,
+        1 => *rng.pick(&[1u16, 25, 200, 201, 65535]),
+        _ => rng.range(1, 60) as u16,
+    };
+    v.extend([dt, ft]);
+    v.extend(t1.to_le_bytes());
+    v.extend(t2.to_le_bytes());
+    v.extend([0, 0, 0, 0, n_comments as u8, *rng.pick(&[0u8, 1, 1, 4, 8, 0x1D, 0xFF])]);
+    let mut name: Vec<u8> = match rng.below(4) {
+        0 => SAUCE_FONT_NAMES[rng.below(SAUCE_FONT_NAMES.len() as u64) as usize].as_bytes().to_vec(),
+        1 => b"IBM VGA ".to_vec(),
+        2 => Vec::new(),
+        _ => DEFAULT_FONT_NAME.as_bytes().to_vec(),
+    };
+    name.resize(22, 0);
+    v.extend(name);
+    v
+}
+
+/// a file of the format that no writer of the engine produced: every header field free, data of any length, the loaders'
+/// special records (XBin runs of all four kinds, iCE Draw repeat records, Tundra position and colour commands), boundary
+/// values of the size fields, optionally a foreign SAUCE trailer
+fn foreign_file(rng: &mut Rng, fmt: Fmt) -> Vec<u8> {
+    let mut d: Vec<u8> = Vec::new();
+    let mut w_hint = 80usize;
+    let cell_bytes = |rng: &mut Rng, n: usize| -> Vec<u8> {
+        let style = rng.below(3);
+        (0..n)
+            .map(|i| match style {
+                0 => rng.next() as u8,
+                1 => *rng.pick(&[0x41u8, 0x07, 0x20, 0x1F, 0x00, 0x01, 0xFF, 0x0F, 0x80]),
+                _ => (i as u8).wrapping_mul(37),
+            })
+            .collect()
+    };
+    match fmt {
+        Fmt::Xb => {
+            let w = match rng.below(8) {
+                0 => *rng.pick(&[1usize, 2, 64, 80, 256, 4096, 0, 4097]),
+                _ => rng.range(1, 40) as usize,
+            };
+            let h = match rng.below(8) {
+                0 => *rng.pick(&[0usize, 1, 25, 200, 65535]),
+                _ => rng.range(1, 12) as usize,
+            };
+            let fs = *rng.pick(&[16u8, 16, 16, 8, 1, 32, 0, 14, 33]);
+            let mut flags = (rng.next() as u8) & 0x1F;
+            if rng.chance(1, 20) {
+                flags |= 0xE0 & rng.next() as u8;
+            }
+            if flags & 0x10 != 0 && rng.chance(9, 10) {
+                flags |= 2; // 512 characters need the font bit (without it the loader rejects the file)
+            }
+            w_hint = w;
+            d.extend(b"XBIN\x1a");
+            d.extend((w as u16).to_le_bytes());
+            d.extend((h as u16).to_le_bytes());
+            d.push(fs);
+            d.push(flags);
+            let fsz = if fs == 0 { 16 } else { fs as usize };
+            if flags & 1 != 0 {
+                d.extend((0..48).map(|_| if rng.chance(1, 10) { rng.next() as u8 } else { rng.below(64) as u8 }));
+            }
+            if flags & 2 != 0 {
+                let blocks = if flags & 0x10 != 0 { 2 } else { 1 };
+                if rng.chance(1, 12) {
+                    // the default font's glyphs as an embedded font
+                    let base = BitFont::default().convert_to_u8_data();
+                    for _ in 0..blocks {
+                        d.extend(base.iter().take(fsz * 256));
+                        if base.len() < fsz * 256 {
+                            d.extend(std::iter::repeat(0).take(fsz * 256 - base.len()));
+                        }
+                    }
+                } else {
+                    for k in 0..blocks {
+                        d.extend(gen_font_data(fsz as u8, rng.below(50) as u32 + k));
+                    }
+                }
+            }
+            let cells = (w * h).min(1500);
+            if flags & 4 != 0 {
+                // runs: 00 pairs, 01 char + attrs, 10 attr + chars, 11 one pair; some crossing the row end, some cut short
+                let mut left = cells as i64;
+                while left > 0 {
+                    let n = rng.range(1, 64) as usize;
+                    let t = rng.below(4) as u8;
+                    d.push((t << 6) | (n as u8 - 1));
+                    let payload = match t {
+                        0 => 2 * n,
+                        1 | 2 => 1 + n,
+                        _ => 2,
+                    };
+                    d.extend(cell_bytes(rng, payload));
+                    left -= n as i64;
+                }
+            } else {
+                d.extend(cell_bytes(rng, 2 * cells));
+            }
+        }
+        Fmt::Bin => {
+            w_hint = 2 * rng.range(1, 100) as usize;
+            let n = match rng.below(6) {
+                0 => 0,
+                _ => rng.below(1500) as usize,
+            };
+            d.extend(cell_bytes(rng, n));
+        }
+        Fmt::Adf => {
+            d.push(if rng.chance(1, 20) { rng.next() as u8 } else { 1 });
+            d.extend((0..192).map(|_| if rng.chance(1, 10) { rng.next() as u8 } else { rng.below(64) as u8 }));
+            if rng.chance(1, 10) {
+                d.extend(BitFont::default().convert_to_u8_data());
+            } else {
+                d.extend(gen_font_data(16, rng.below(50) as u32));
+            }
+            let n = match rng.below(6) {
+                0 => 0,
+                1 => 160 * rng.range(1, 4) as usize,
+                _ => rng.below(1200) as usize,
+            };
+            d.extend(cell_bytes(rng, n));
+        }
+        Fmt::Idf => {
+            let x1 = if rng.chance(1, 4) { rng.below(5) as u16 } else { 0 };
+            let y1 = if rng.chance(1, 6) { *rng.pick(&[1u16, 3, 199, 200, 65535]) } else { 0 };
+            let wd = match rng.below(8) {
+                0 => *rng.pick(&[1u16, 80, 81, 100, 1000]),
+                _ => rng.range(1, 80) as u16,
+            };
+            let x2 = (x1 + wd - 1).max(if rng.chance(1, 30) { 0 } else { x1 });
+            w_hint = wd as usize;
+            d.extend(if rng.chance(1, 2) { b"\x041.4" } else { b"\x041.3" });
+            d.extend(x1.to_le_bytes());
+            d.extend(y1.to_le_bytes());
+            d.extend(x2.to_le_bytes());
+            d.extend((rng.next() as u16).to_le_bytes());
+            let items = rng.below(120) as usize;
+            // one long repeat record per file at most (the model places cell by cell; 65535 cells in 6 bytes are the C02 case)
+            let mut long_left = if rng.chance(1, 10) { 1 } else { 0 };
+            for _ in 0..items {
+                match rng.below(6) {
+                    0 => {
+                        // repeat record
+                        let n = match rng.below(6) {
+                            0 if long_left > 0 => {
+                                long_left -= 1;
+                                // (cost of the model's cell-by-cell placement ~ count^2 / width: the very long runs only on wide pictures;
+                                // on narrow ones 65535 still exercises the row limit, which is decided before any cell is placed)
+                                if wd >= 40 { *rng.pick(&[255u16, 256, 1000, 16001, 65535]) } else if wd == 1 { *rng.pick(&[255u16, 256, 1000, 65535]) } else { *rng.pick(&[255u16, 256, 1000]) }
+                            }
+                            0 => *rng.pick(&[0u16, 1, 2, 3, 4]),
+                            _ => rng.range(1, 90) as u16,
+                        };
+                        d.extend([1, 0]);
+                        d.extend(n.to_le_bytes());
+                        d.extend(cell_bytes(rng, 2));
+                    }
+                    _ => d.extend(cell_bytes(rng, 2)),
+                }
+            }
+            if rng.chance(1, 8) {
+                d.extend([1, 0]); // a repeat record cut off by the font block
+            }
+            d.extend(gen_font_data(16, rng.below(50) as u32));
+            d.extend((0..48).map(|_| if rng.chance(1, 10) { rng.next() as u8 } else { rng.below(64) as u8 }));
+        }
+        Fmt::Tnd => {
+            w_hint = match rng.below(8) {
+                0 => *rng.pick(&[1usize, 80, 999, 1000, 1001, 5000]),
+                _ => rng.range(1, 100) as usize,
+            };
+            d.push(if rng.chance(1, 20) { rng.next() as u8 } else { 24 });
+            d.extend(b"TUNDRA24");
+            let items = rng.below(200) as usize;
+            let colours: Vec<[u8; 3]> = (0..rng.range(1, 6)).map(|_| [rng.next() as u8, rng.next() as u8, rng.next() as u8]).collect();
+            for _ in 0..items {
+                match rng.below(12) {
+                    0 => {
+                        // position: mostly small, sometimes backwards / out of range
+                        d.push(1);
+                        // (a jump to row 65534 makes Layer::set_char allocate 65535 full-width rows: only on narrow pictures here —
+                        // 65535 rows x 5000 columns of invisible cells are several GiB, the harness process is killed)
+                        let y: i32 = match rng.below(8) {
+                            0 => *rng.pick(&[-1i32, 300, 65535, 1 << 20]),
+                            _ => rng.below(12) as i32,
+                        };
+                        let x: i32 = match rng.below(8) {
+                            0 => *rng.pick(&[-1i32, w_hint as i32, 79, 80]),
+                            _ => rng.below(w_hint.max(1) as u64) as i32,
+                        };
+                        d.extend(y.to_be_bytes());
+                        d.extend(x.to_be_bytes());
+                    }
+                    1..=3 => {
+                        let cmd = *rng.pick(&[2u8, 4, 6, 3, 5]);
+                        d.push(cmd);
+                        d.push(rng.next() as u8);
+                        for bit in [2u8, 4] {
+                            if cmd & bit != 0 {
+                                let c = rng.pick(&colours);
+                                d.push(0);
+                                d.extend(c);
+                            }
+                        }
+                    }
+                    _ => d.push(match rng.below(10) {
+                        0 => 0,
+                        1 => *rng.pick(&[7u8, 8, 0xFF]),
+                        _ => 0x20 + rng.below(0x5F) as u8,
+                    }),
+                }
+            }
+        }
+    }
+    if rng.chance(1, 8) && !d.is_empty() {
+        let k = rng.below(d.len() as u64) as usize;
+        d.truncate(k);
+    }
+    if match fmt {
+        Fmt::Bin | Fmt::Tnd => rng.chance(5, 6),
+        _ => rng.chance(1, 2),
+    } {
+        d.extend(foreign_sauce(rng, fmt, w_hint));
+    }
+    d
+}
+
+/// `guess_font_name` on a font block, as the loaders call it
+fn font_name_case(run: &mut Run, h: u8, data: &[u8]) {
+    let mut font = BitFont::create_8("", 8, h, data);
+    font.name = icy_engine::guess_font_name(&font);
+    run.case(&format!("binformats fontname {} {}", h, hex(data)), &hex(&name_bytes(&font.name)));
+}
+
+/// `BitFont::from_sauce_name` on the TInfoS bytes of a record, as `set_sauce` calls it
+fn sauce_font_case(run: &mut Run, tinfo: &[u8]) {
+    let name = sauce_str::<22, 0>(tinfo).to_string();
+    let line = match BitFont::from_sauce_name(&name) {
+        Ok(f) => format!("{} {}", f.size.height, fnv(f.convert_to_u8_data().iter().map(|b| *b as u64))),
+        Err(_) => "none".to_string(),
+    };
+    // the model is handed what `to_string()` reads of the field: the bytes before the first NUL, without trailing blanks
+    let cut: Vec<u8> = tinfo.iter().take(22).take_while(|b| **b != 0).cloned().collect();
+    run.case(&format!("binformats saucefont {}", hex(strip_pad(&cut))), &line);
 }
 
 fn plain_case(fmt: Fmt, w: usize, h: usize, opts: u8, cells: Vec<Cell>) -> Case {
     let _ = h;
-    Case { fmt, ice: 2, w, opts, pal: None, fonts: vec![(0, FontSpec::Default)], cells }
+    Case { fmt, ice: 2, w, opts, pal: None, fonts: vec![(0, FontSpec::Default)], cells, meta: None }
 }
 
 fn fixed_cases() -> Vec<Case> {
@@ -1519,7 +2226,7 @@ fn fixed_cases() -> Vec<Case> {
             pal[i] = (r ^ 0x82, g ^ 0x41, b ^ 0xC3); // stays 6-bit representable: both copies of the top two bits flip together
             let row: Vec<Cell> = (0..w).map(|x| Cell { ch: 0xDB, fg: (x % 16) as u32, bg: ((x + i) % 16) as u32, flags: 0, page: 0 }).collect();
             for opts in [0u8, 2] {
-                v.push(Case { fmt, ice: 2, w, opts, pal: Some(pal.clone()), fonts: vec![(0, FontSpec::Default)], cells: row.clone() });
+                v.push(Case { fmt, ice: 2, w, opts, pal: Some(pal.clone()), fonts: vec![(0, FontSpec::Default)], cells: row.clone(), meta: None });
             }
         }
     }
@@ -1532,9 +2239,9 @@ fn fixed_cases() -> Vec<Case> {
     let p0 = Cell { ch: 0x41, fg: 7, bg: 1, flags: 0, page: 0 };
     let p1 = Cell { ch: 0x41, fg: 7, bg: 1, flags: 0, page: 1 };
     for opts in [0u8, 2, 3] {
-        v.push(Case { fmt: Fmt::Xb, ice: 1, w: 4, opts, pal: None, fonts: vec![(0, FontSpec::Default), (1, FontSpec::Gen(16, 1))], cells: vec![p0, p1, p1, p0, p1, p0, p0, p0] });
-        v.push(Case { fmt: Fmt::Xb, ice: 2, w: 2, opts, pal: Some((0..16).map(|i| (six(i * 5), six(i * 11), six(63 - i))).collect()), fonts: vec![(0, FontSpec::Gen(8, 2)), (1, FontSpec::Gen(8, 9))], cells: vec![p0, p1] });
-        v.push(Case { fmt: Fmt::Xb, ice: 1, w: 2, opts, pal: None, fonts: vec![(0, FontSpec::Gen(32, 4))], cells: vec![p0, Cell { flags: BLINK, ..p0 }] });
+        v.push(Case { fmt: Fmt::Xb, ice: 1, w: 4, opts, pal: None, fonts: vec![(0, FontSpec::Default), (1, FontSpec::Gen(16, 1))], cells: vec![p0, p1, p1, p0, p1, p0, p0, p0], meta: None });
+        v.push(Case { fmt: Fmt::Xb, ice: 2, w: 2, opts, pal: Some((0..16).map(|i| (six(i * 5), six(i * 11), six(63 - i))).collect()), fonts: vec![(0, FontSpec::Gen(8, 2)), (1, FontSpec::Gen(8, 9))], cells: vec![p0, p1], meta: None });
+        v.push(Case { fmt: Fmt::Xb, ice: 1, w: 2, opts, pal: None, fonts: vec![(0, FontSpec::Gen(32, 4))], cells: vec![p0, Cell { flags: BLINK, ..p0 }], meta: None });
     }
     // picture content that reads as a SAUCE record (file saved without one): the last row of a 64-column ice-colour XBin
     let mut rec: Vec<u8> = b"SAUCE00".to_vec();
@@ -1544,29 +2251,29 @@ fn fixed_cases() -> Vec<Case> {
     rec.extend(std::iter::repeat(0).take(22));
     let mut cells: Vec<Cell> = (0..64).map(|_| p0).collect();
     cells.extend((0..64).map(|i| Cell { ch: rec[2 * i] as u32, fg: (rec[2 * i + 1] & 15) as u32, bg: (rec[2 * i + 1] >> 4) as u32, flags: 0, page: 0 }));
-    v.push(Case { fmt: Fmt::Xb, ice: 2, w: 64, opts: 0, pal: None, fonts: vec![(0, FontSpec::Default)], cells });
+    v.push(Case { fmt: Fmt::Xb, ice: 2, w: 64, opts: 0, pal: None, fonts: vec![(0, FontSpec::Default)], cells, meta: None });
     // the same in the last 64 cells of an ADF picture, and as the last 128 characters of an 80-column Tundra picture
     let mut cells: Vec<Cell> = (0..96).map(|_| p0).collect();
     cells.extend((0..64).map(|i| Cell { ch: rec[2 * i] as u32, fg: (rec[2 * i + 1] & 15) as u32, bg: (rec[2 * i + 1] >> 4) as u32, flags: 0, page: 0 }));
-    v.push(Case { fmt: Fmt::Adf, ice: 2, w: 80, opts: 0, pal: None, fonts: vec![(0, FontSpec::Default)], cells });
+    v.push(Case { fmt: Fmt::Adf, ice: 2, w: 80, opts: 0, pal: None, fonts: vec![(0, FontSpec::Default)], cells, meta: None });
     let mut rec2: Vec<u8> = b"SAUCE00".to_vec();
     rec2.extend(std::iter::repeat(b' ').take(75));
     rec2.extend(b"20240101");
     rec2.extend(std::iter::repeat(0).take(38));
     let mut cells: Vec<Cell> = (0..32).map(|_| Cell { bg: 0, ..p0 }).collect();
     cells.extend((0..128).map(|i| Cell { ch: rec2[i] as u32, fg: 7, bg: 0, flags: 0, page: 0 }));
-    v.push(Case { fmt: Fmt::Tnd, ice: 2, w: 80, opts: 0, pal: None, fonts: vec![(0, FontSpec::Default)], cells });
+    v.push(Case { fmt: Fmt::Tnd, ice: 2, w: 80, opts: 0, pal: None, fonts: vec![(0, FontSpec::Default)], cells, meta: None });
     // Tundra: colours beyond 16, a first cell that is not black on black, width limits of the SAUCE record
     let pal: Vec<Rgb> = (0..24).map(|i| ((i * 10 + 5) as u8, (255 - i * 7) as u8, (i * 3) as u8)).collect();
     let t = |ch: u32, fg: u32, bg: u32| Cell { ch, fg, bg, flags: 0, page: 0 };
-    v.push(Case { fmt: Fmt::Tnd, ice: 2, w: 3, opts: 1, pal: Some(pal.clone()), fonts: vec![(0, FontSpec::Default)], cells: vec![t(0x41, 0, 0), t(0x42, 20, 17), t(0x43, 3, 23)] });
-    v.push(Case { fmt: Fmt::Tnd, ice: 2, w: 10, opts: 1, pal: Some(pal.clone()), fonts: vec![(0, FontSpec::Default)], cells: (0..10).map(|i| t(0x41, i, 0)).collect() });
+    v.push(Case { fmt: Fmt::Tnd, ice: 2, w: 3, opts: 1, pal: Some(pal.clone()), fonts: vec![(0, FontSpec::Default)], cells: vec![t(0x41, 0, 0), t(0x42, 20, 17), t(0x43, 3, 23)], meta: None });
+    v.push(Case { fmt: Fmt::Tnd, ice: 2, w: 10, opts: 1, pal: Some(pal.clone()), fonts: vec![(0, FontSpec::Default)], cells: (0..10).map(|i| t(0x41, i, 0)).collect(), meta: None });
     // bold cells on palette entries that share a colour while their bright partners do not
     let mut dup = dos_palette();
     dup[2] = dup[1];
-    v.push(Case { fmt: Fmt::Tnd, ice: 2, w: 3, opts: 1, pal: Some(dup), fonts: vec![(0, FontSpec::Default)], cells: vec![Cell { flags: BOLD, ..t(0x41, 1, 0) }, Cell { flags: BOLD, ..t(0x42, 2, 0) }, t(0x43, 7, 0)] });
+    v.push(Case { fmt: Fmt::Tnd, ice: 2, w: 3, opts: 1, pal: Some(dup), fonts: vec![(0, FontSpec::Default)], cells: vec![Cell { flags: BOLD, ..t(0x41, 1, 0) }, Cell { flags: BOLD, ..t(0x42, 2, 0) }, t(0x43, 7, 0)], meta: None });
     for w in [1000usize, 1001] {
-        v.push(Case { fmt: Fmt::Tnd, ice: 2, w, opts: 1, pal: None, fonts: vec![(0, FontSpec::Default)], cells: (0..w).map(|i| t(0x41 + (i % 5) as u32, 7, 0)).collect() });
+        v.push(Case { fmt: Fmt::Tnd, ice: 2, w, opts: 1, pal: None, fonts: vec![(0, FontSpec::Default)], cells: (0..w).map(|i| t(0x41 + (i % 5) as u32, 7, 0)).collect(), meta: None });
     }
     v
 }
@@ -1594,7 +2301,7 @@ fn enumerate(run: &mut Run, rng: &mut Rng, fmt: Fmt, w: usize, h: usize, alpha: 
         } else {
             cells
         };
-        let case = Case { fmt, ice, w: if fmt == Fmt::Adf { 80 } else { w }, opts, pal: None, fonts: fonts.to_vec(), cells: full };
+        let case = Case { fmt, ice, w: if fmt == Fmt::Adf { 80 } else { w }, opts, pal: None, fonts: fonts.to_vec(), cells: full, meta: None };
         one(run, &case, rng, 0);
     }
     total
@@ -1613,6 +2320,13 @@ pub fn run(run: &mut Run, seed: u64, thorough: bool, replay: Option<&str>, corpu
             }
             eprintln!("c05: cannot parse file replay");
         } else {
+            if r.starts_with("layers:") {
+                match parse_ltoken(r) {
+                    Some(c) => one_layered(run, &c),
+                    None => eprintln!("c05: cannot parse layered replay input"),
+                }
+                return;
+            }
             match parse_token(r) {
                 Some(c) => one(run, &c, rng, 0),
                 None => eprintln!("c05: cannot parse replay input"),
@@ -1628,6 +2342,46 @@ pub fn run(run: &mut Run, seed: u64, thorough: bool, replay: Option<&str>, corpu
     }
     for c in fixed_cases() {
         one(run, &c, &mut rng, 1);
+    }
+    // font names: `guess_font_name` (checksum table) on every built-in font, on each with one byte altered, on generated
+    // fonts of every height; `from_sauce_name` on every SAUCE font name and on near misses
+    {
+        let mut n = 0;
+        for i in 0..icy_engine::ANSI_FONTS {
+            if let Ok(f) = BitFont::from_ansi_font_page(i) {
+                let d = f.convert_to_u8_data();
+                font_name_case(run, f.size.height as u8, &d);
+                if i % 7 == (seed % 7) as usize {
+                    let mut d2 = d.clone();
+                    let k = rng.below(d2.len() as u64) as usize;
+                    d2[k] ^= 1 << rng.below(8);
+                    font_name_case(run, f.size.height as u8, &d2);
+                }
+                n += 1;
+            }
+        }
+        for name in SAUCE_FONT_NAMES {
+            let f = BitFont::from_sauce_name(name).unwrap();
+            font_name_case(run, f.size.height as u8, &f.convert_to_u8_data());
+            sauce_font_case(run, name.as_bytes());
+            let mut padded = name.as_bytes().to_vec();
+            padded.push(b' ');
+            sauce_font_case(run, &padded);
+            let mut cutoff = name.as_bytes().to_vec();
+            cutoff.pop();
+            sauce_font_case(run, &cutoff);
+            sauce_font_case(run, name.to_lowercase().as_bytes());
+            n += 1;
+        }
+        for t in [&b""[..], b"Codepage 437 English", b"IBM VGA\0junk", b"IBM\xFFVGA", b"IBM VGA50 ", b" IBM VGA"] {
+            sauce_font_case(run, t);
+        }
+        for h in [1u8, 8, 14, 16, 19, 32] {
+            font_name_case(run, h, &gen_font_data(h, rng.below(50) as u32));
+        }
+        for _ in 0..n {
+            run.count("font-names:built-in fonts");
+        }
     }
     // embedded fonts that are a BUILT-IN font with exactly one glyph altered (first, second, a letter, last but one, last): the
     // loaders recognise built-in fonts by a checksum over the glyph data and name them, the XBin saver leaves out a font that
@@ -1690,13 +2444,35 @@ pub fn run(run: &mut Run, seed: u64, thorough: bool, replay: Option<&str>, corpu
     }
     scope.push_str(&format!("{} pictures: every picture of the listed small sizes over the alphabet (plain cell, character 1 on attribute 0, coloured cell, control character 2) for IDF (raw/compressed), Tundra, XBin (raw/compressed), BIN{}", n_enum, if thorough { ", ADF (varying the first cells of 80-column rows)" } else { "" }));
     // seeded random pictures
-    let n = if thorough { 6000 } else { 260 };
+    let n = if thorough { 3000 } else { 260 };
     let max_cells = if thorough { 6000 } else { 1500 };
     for i in 0..n {
         let fmt = ALL[i % 5];
         let case = random_case(&mut rng, fmt, if fmt == Fmt::Adf { max_cells.max(80 * 12) } else { max_cells });
         let n_mut = if case.cells.len() <= 600 { 3 } else { 1 };
         one(run, &case, &mut rng, n_mut);
+    }
+    // buffers with 1..=3 layers (offsets, alpha channel, hidden layers, Chars / Attributes layers): saved through the compositor
+    let n_layered = if thorough { 1500 } else { 200 };
+    for i in 0..n_layered {
+        let c = random_layered(&mut rng, ALL[i % 5]);
+        one_layered(run, &c);
+    }
+    // files no engine writer produced (every header field free, special records, foreign SAUCE trailers): load, re-save
+    // with and without a SAUCE record, load again
+    let n_foreign = if thorough { 1500 } else { 300 };
+    for i in 0..n_foreign {
+        let fmt = ALL[i % 5];
+        let bytes = foreign_file(&mut rng, fmt);
+        if bytes.len() > 60_000 {
+            continue;
+        }
+        let opts = match fmt {
+            Fmt::Bin => 1,
+            _ => rng.below(4) as u8,
+        };
+        run.count(&format!("{}:foreign-files", fmt.ext()));
+        one_file(run, fmt, opts, &bytes, true);
     }
     run.extra.push(("exhaustive_scope".into(), scope));
     run.extra.push((
